@@ -18,9 +18,13 @@ C(gate, gcd) == [gate |-> gate, gcd |-> gcd, preq |-> PReq]
 RP_quick == {Prm(TRUE, 1, FALSE, 0, TRUE, {"cpu"}), Prm(TRUE, 0, FALSE, 0, FALSE, {"cpu", "mem"}), Prm(FALSE, 0, TRUE, 2, FALSE, {"cpu"})}
 RP_both == {Prm(TRUE, 2, TRUE, 1, FALSE, {"cpu"}), Prm(TRUE, 1, TRUE, 2, TRUE, {"cpu", "mem"}), Prm(TRUE, 0, TRUE, 1, FALSE, {"cpu"})}
 RP_thorough == RP_quick \cup RP_both \cup {Prm(TRUE, 2, FALSE, 0, FALSE, {"cpu", "mem"}), Prm(TRUE, 0, FALSE, 0, TRUE, {"cpu"})}
-Cfg_quick == {C(TRUE, 1)}
+Cfg_quick == {C(TRUE, 0)}
 Cfg_all == {C(TRUE, 1), C(FALSE, 1), C(FALSE, 2)}
 NS_both == {{"n1", "n2"}}
+NS_one == {{"n1"}}
+RP_two == {Prm(TRUE, 1, FALSE, 0, TRUE, {"cpu"}), Prm(TRUE, 0, FALSE, 0, FALSE, {"cpu", "mem"})}
+RP_wit == RP_quick \cup {Prm(TRUE, 2, TRUE, 1, FALSE, {"cpu"})}
+Cfg_nogate == {C(FALSE, 1)}
 
 Init == \E c \in Cfgs, N0 \in NodeSets : InitWith(c, N0)
 
